@@ -26,7 +26,9 @@ RULE = ("bodies = every sequence of <= K lines over {'.', '..', '.a', 'a', '', '
         "distinct DATA-phase byte stream the client produced, the stream is additionally delivered whole, byte-at-a-time "
         "(commands and replies byte-at-a-time too) and with every 1-cut (thorough: every <= 2-cut). "
         "non-trivial = distinct (body, chunking) where a chunk starts with '.' right after a line end or the body starts with '.', "
-        "and distinct (stream, segmentation) with a cut inside CR LF '.' CR LF material")
+        "and distinct (DATA stream, segmentation) pairs. For a body whose real client stream is wrong (known findings) the "
+        "server is additionally fed the reference dot-stuffed stream in every segmentation so that SMTP.dataLineReceived "
+        "stays covered for dot-leading lines")
 BOUNDS = {"quick": "K=3 (585 bodies), SMTP server; ESMTP server for K<=2",
           "thorough": "K=4 over the first 6 lines + K=3 over 8 (1845 bodies), both servers, <= 2 network cuts"}
 ASSUMPTIONS = [
@@ -192,7 +194,7 @@ def _server_class(base):
 SERVERS = {"SMTP": _server_class(smtp.SMTP), "ESMTP": _server_class(smtp.ESMTP)}
 
 
-def session(server_kind, body, chunks, seg, bytewise_all=False):
+def session(server_kind, body, chunks, seg, bytewise_all=False, override=None):
     """Run one complete client/server conversation.  seg = tuple of segment lengths for the DATA-phase stream
     (None = whole).  Returns a dict of observations."""
     rec = Rec()
@@ -243,6 +245,9 @@ def session(server_kind, body, chunks, seg, bytewise_all=False):
             obs["pieces"] = list(ct.written)
             stream = ct.value()
             ct.clear()
+            obs["client_stream"] = stream
+            if override is not None:
+                stream = override
             obs["stream"] = stream
             cuts = list(seg) if seg is not None else [len(stream)]
             if bytewise_all:
@@ -305,6 +310,8 @@ def judge(lines, body, chunks, obs):
 def attribute(lines, body, chunks, obs):
     """Which side deviates from the reference wire format?  Returns list of client sig suffixes ([] = client is fine)."""
     stream = obs["stream"]
+    if stream is not None and stream != obs.get("client_stream"):
+        return []      # the server was fed the reference stream
     if stream is None or stream == ref_stream(lines):
         return []
     pieces = obs["pieces"] or []
@@ -332,10 +339,11 @@ def attribute(lines, body, chunks, obs):
     return sorted(set(out))
 
 
-def evaluate(server_kind, lines, chunks, seg, bytewise_all, whole_ok=None):
-    """-> (violations [(sig, detail)], obs)"""
+def evaluate(server_kind, lines, chunks, seg, bytewise_all, whole_ok=None, use_ref=False):
+    """-> (violations [(sig, detail)], obs).  use_ref: hand the server the reference dot-stuffed stream instead of
+    the client's (only used for bodies whose client stream is wrong, so that the server side is still exercised)."""
     body = b"".join(ln + b"\n" for ln in lines)
-    obs = session(server_kind, body, chunks, seg, bytewise_all)
+    obs = session(server_kind, body, chunks, seg, bytewise_all, ref_stream(lines) if use_ref else None)
     if obs["loop"]:
         return [("harness:pump-did-not-quiesce", "%r %r" % (lines, chunks))], obs
     bad = judge(lines, body, chunks, obs)
@@ -449,22 +457,36 @@ def run_shard(shard, tier, seed):
                     streams[obs["stream"]] = (chunks, not bad)
                 if st.evaluations % 4001 == 1:
                     st.sample({"server": server_kind, "body": body, "chunks": list(chunks), "stream": obs["stream"]})
-            for stream, (chunks, whole_ok) in streams.items():
+            todo = [(stream, chunks, whole_ok, False) for stream, (chunks, whole_ok) in streams.items()]
+            if ref_stream(lines) not in streams:
+                # the real client never produced the correct stream for this body (known findings): keep the
+                # server side covered by giving it what a correct client sends
+                st.evaluations += 1
+                bad, obs = evaluate(server_kind, lines, (len(body),) if body else (), None, False, None, True)
+                for sig, detail in bad:
+                    st.outcome(sig)
+                    st.violation(sig, detail, {"server": server_kind, "lines": lines, "chunks": [len(body)] if body else [],
+                                               "seg": None, "bytewise": False, "whole_ok": None, "use_ref": True})
+                todo.append((ref_stream(lines), (len(body),) if body else (), not bad, True))
+                st.outcome("server-fed-reference-stream")
+            for stream, chunks, whole_ok, use_ref in todo:
                 variants = [(None, True)] + [(seg, False) for seg in stream_segs(len(stream), ncuts)]
                 for seg, bw in variants:
                     st.evaluations += 1
-                    bad, obs = evaluate(server_kind, lines, chunks, seg, bw, whole_ok)
+                    bad, obs = evaluate(server_kind, lines, chunks, seg, bw, whole_ok, use_ref)
                     st.nt(("seg", server_kind, stream, seg, bw))
                     st.outcome("delivered-intact" if not bad else "violating")
                     for sig, detail in bad:
                         st.outcome(sig)
                         st.violation(sig, detail, {"server": server_kind, "lines": lines, "chunks": list(chunks),
-                                                   "seg": list(seg) if seg else None, "bytewise": bw, "whole_ok": whole_ok})
+                                                   "seg": list(seg) if seg else None, "bytewise": bw, "whole_ok": whole_ok,
+                                                   "use_ref": use_ref})
     return st
 
 
 def replay(w):
     lines = [bytes(x) if not isinstance(x, bytes) else x for x in w["lines"]]
     seg = tuple(w["seg"]) if w.get("seg") else None
-    bad, _ = evaluate(w["server"], lines, tuple(w["chunks"]), seg, bool(w.get("bytewise")), w.get("whole_ok"))
+    bad, _ = evaluate(w["server"], lines, tuple(w["chunks"]), seg, bool(w.get("bytewise")), w.get("whole_ok"),
+                      bool(w.get("use_ref")))
     return bad
